@@ -1,6 +1,6 @@
 \* intended design: all call sequences <= 5 (VIEW hides the history), all four cache configurations
 CONSTANTS
-  Objs = {1, 2, 3}
+  Objs = {1, 2, 3, 8}
   Types = {"P", "D"}
   Loads <- MC_Loads
   Streams = {4}
